@@ -547,6 +547,16 @@ class Exec:
             m = re.fullmatch(r"usize::MAX", c)
             if m:
                 return Int(str(U64 - 1))
+            m = re.fullmatch(r"(?:core::num::<impl )?(usize|u64|isize|i64|u32|i32|u8|u16)>?::(MAX|MIN|BITS)", c)
+            if m:
+                bits = {"usize": 64, "u64": 64, "isize": 64, "i64": 64, "u32": 32, "i32": 32, "u8": 8, "u16": 16}[m.group(1)]
+                signed = m.group(1).startswith("i")
+                if m.group(2) == "BITS":
+                    return Int(str(bits))
+                if m.group(2) == "MAX":
+                    return Int(str(2 ** (bits - 1) - 1 if signed else 2 ** bits - 1))
+                if not signed:
+                    return Int("0")
             if c.startswith('"'):
                 return Opaque("str:" + c)
             if "::promoted[" in c:
@@ -583,6 +593,23 @@ class Exec:
             # plain Add/Sub/Mul in MIR: with overflow-checks=on rustc emits the WithOverflow form plus an
             # assert, so a plain op means wrapping semantics
             return Int(wrapped)
+        m = re.fullmatch(r"(Shl|Shr|ShlUnchecked|ShrUnchecked|BitAnd)\((.+)\)", rv)
+        if m:
+            a, b = [self.operand(st, x) for x in split_top(m.group(2))]
+            if not (isinstance(a, Int) and isinstance(b, Int)):
+                raise Unsupported("bit operation on non-integers")
+            op = m.group(1)
+            if op == "BitAnd":
+                for (p, q) in ((a, b), (b, a)):
+                    if re.fullmatch(r"\d+", q.t) and (int(q.t) + 1) & int(q.t) == 0:
+                        return Int(f"(mod {p.t} {int(q.t) + 1})")  # mask 2^k - 1
+                raise Unsupported("BitAnd with a mask that is not 2^k-1")
+            if re.fullmatch(r"\d+", b.t) and int(b.t) < 64:
+                k = 2 ** int(b.t)
+                return Int(f"(mod (* {a.t} {k}) {U64})") if op.startswith("Shl") else Int(f"(div {a.t} {k})")
+            ensure_pow2(st.sym)
+            sh = f"(pow2 (mod {b.t} 64))"
+            return Int(f"(mod (* {a.t} {sh}) {U64})") if op.startswith("Shl") else Int(f"(div {a.t} {sh})")
         m = re.fullmatch(r"(Div|Rem)\((.+)\)", rv)
         if m:
             a, b = [self.operand(st, x) for x in split_top(m.group(2))]
@@ -1005,6 +1032,59 @@ def model_checked(op):
     return h
 
 
+def ensure_pow2(sym):
+    """(pow2 k) for 0 <= k <= 64 as an ite table (defined once per query context)."""
+    if not getattr(sym, "_pow2", False):
+        body = "0"
+        for k in range(64, -1, -1):
+            body = f"(ite (= k {k}) {2 ** k} {body})"
+        sym.decls.insert(0, f"(define-fun pow2 ((k Int)) Int {body})")
+        sym._pow2 = True
+
+
+def model_bits(ex, st, callee, args, ty):
+    """usize::{leading_zeros, ilog2, is_power_of_two, saturating_*, min, max, abs_diff, div_ceil}."""
+    meth = re.search(r"::(\w+)(?:::<.*>)?$", callee).group(1)
+    a = val_of(args[0]) if not isinstance(args[0], Int) else args[0]
+    if not isinstance(a, Int):
+        raise Unsupported(f"{meth} of {a!r}"[:80])
+    x = a.t
+    if meth in ("leading_zeros", "ilog2", "is_power_of_two"):
+        ensure_pow2(st.sym)
+        l = st.sym.int("lz")
+        st.sym.side.append(f"(and (<= {l} 64) (= (= {x} 0) (= {l} 64)) (=> (> {x} 0) (and (<= (pow2 (- 63 {l})) {x}) (< {x} (pow2 (- 64 {l}))))))")
+        if meth == "leading_zeros":
+            return m_ret(st, Int(l))
+        if meth == "is_power_of_two":
+            return m_ret(st, Bool(f"(and (> {x} 0) (= {x} (pow2 (- 63 {l}))))"))
+        s1 = st.fork(); s1.pc.append(f"(> {x} 0)")
+        s2 = st.fork(); s2.pc.append(f"(= {x} 0)"); s2.events.append(("panic", "ilog2 of zero"))
+        return [(s1, Int(f"(- 63 {l})"), "return", ""), (s2, None, "panic", "argument of integer logarithm must be positive")]
+    b = args[1] if len(args) > 1 else None
+    if b is not None and not isinstance(b, Int):
+        b = val_of(b)
+    if b is None or not isinstance(b, Int):
+        raise Unsupported(f"{meth} operand")
+    y = b.t
+    if meth == "saturating_sub":
+        return m_ret(st, Int(f"(ite (>= {x} {y}) (- {x} {y}) 0)"))
+    if meth == "saturating_add":
+        return m_ret(st, Int(f"(ite (< (+ {x} {y}) {U64}) (+ {x} {y}) {U64 - 1})"))
+    if meth == "saturating_mul":
+        return m_ret(st, Int(f"(ite (< (* {x} {y}) {U64}) (* {x} {y}) {U64 - 1})"))
+    if meth == "min":
+        return m_ret(st, Int(f"(ite (<= {x} {y}) {x} {y})"))
+    if meth == "max":
+        return m_ret(st, Int(f"(ite (>= {x} {y}) {x} {y})"))
+    if meth == "abs_diff":
+        return m_ret(st, Int(f"(ite (>= {x} {y}) (- {x} {y}) (- {y} {x}))"))
+    if meth == "div_ceil":
+        s1 = st.fork(); s1.pc.append(f"(> {y} 0)")
+        s2 = st.fork(); s2.pc.append(f"(= {y} 0)"); s2.events.append(("panic", "division by zero"))
+        return [(s1, Int(f"(div (+ {x} (- {y} 1)) {y})"), "return", ""), (s2, None, "panic", "attempt to divide by zero")]
+    raise Unsupported("usize::" + meth)
+
+
 def model_overflowing(op):
     def h(ex, st, callee, args, ty):
         a, b = args
@@ -1340,6 +1420,8 @@ STD_MODELS = [
     (r"^(core::panicking::)?panic(_fmt|_nounwind|_const.*|_explicit)?$", model_panic),
     (r"panicking::assert_failed", model_panic),
     (r"::unwrap_failed|::expect_failed|capacity_overflow|handle_error", model_panic),
+    (r"num::<impl usize>::(leading_zeros|ilog2|is_power_of_two|saturating_sub|saturating_add|saturating_mul|abs_diff|div_ceil)$", model_bits),
+    (r"^<usize as Ord>::(min|max)$|^core::cmp::(min|max)::<usize>$|^std::cmp::(min|max)::<usize>$", model_bits),
     (r"num::<impl usize>::checked_mul", model_checked("mul")),
     (r"num::<impl usize>::checked_add", model_checked("add")),
     (r"num::<impl usize>::checked_sub", model_checked("sub")),
